@@ -27,7 +27,7 @@ theorem write_core {s s' : State} (hi : Inv s) {b k c : Bytes} {t ds : Tree} {p 
     names fit; for admissible names the source is not a leftover directory (a missing source bucket is inside since
     cc244fc: `NoSuchBucket` on both sides; before: fs:missing-bucket-reported-as-missing-key); when the copy can happen the
     destination path is free. Nothing is demanded of the side files: the destination takes over the source's metadata and
-    recorded checksums, or loses its own when the source has none (aa68bb7; before: fs:stale-metadata-after-copy,
+    recorded checksums, or loses its own when the source has none (8faafe7; before: fs:stale-metadata-after-copy,
     fs:stale-checksum-after-copy) -/
 def CopyOk (s : State) (sb sk db dk : Bytes) : Prop :=
   NameOk sb ∧ CanonKey sk ∧ NameOk db ∧ CanonKey dk ∧
